@@ -2,7 +2,7 @@
 extract output series, and judge them against bounded reference series."""
 from __future__ import annotations
 
-from hxv.lib import Violation, build_indicator, is_num, mk_candles, raises
+from hxv.lib import apply_interlude, Violation, build_indicator, is_num, mk_candles, raises
 from hxv.ref import bounded as bd
 from hxv.ref.bounded import ANY, B, INF
 
@@ -23,12 +23,20 @@ def series(ind, field=None):
     return out
 
 
-def run_batch(cfg, rows, prepare=None, **extra):
-    """-> (indicator, None) or (None, Violation)"""
+def run_batch(cfg, rows, prepare=None, inter=None, **extra):
+    """-> (indicator, None) or (None, Violation).  inter: a maintenance operation after the first inter["at"] candles
+    (the rest is then appended): by C14 it leaves the batch state, so the definitions apply unchanged"""
     try:
         candles = mk_candles(rows)
         if prepare:
             prepare(candles)
+        if inter and 0 < inter["at"] % (len(candles) + 1) < len(candles):
+            k = inter["at"] % (len(candles) + 1)
+            ind = build_indicator(cfg, candles=candles[:k], **extra)
+            ind.calculate()
+            apply_interlude(ind, inter)
+            ind.append(candles[k:])
+            return ind, None
         ind = build_indicator(cfg, candles=candles, **extra)
         ind.calculate()
         return ind, None
